@@ -185,6 +185,12 @@ TYPE_NODE_FAMILY = [
     ("query ($v: Boolean) { echoBool(v: $v) }", {"v": True}), ("query ($v: [Int]) { echoList(v: $v) }", {"v": [1, 2]}),
     ("query ($v: Colr) { qfilt(colr: $v) }", {"v": "RED"}), ("query ($v: Filt) { qfilt(filt: $v) }", {"v": {"hasFriend": True}}),
     ("query ($v: Int!) { echoInt(v: $v) }", {"v": 1}), ("query ($v: [Int!]!) { echoList(v: $v) }", {"v": [3]}),
+    # LITERAL arguments (same field, other values; several per document): whatever is remembered about an argument node of
+    # one document must not be applied to another document's
+    ("{ echoInt(v: 1) }", {}), ("{ echoInt(v: 2) }", {}), ("{ echoInt(v: 12345) }", {}), ('{ echoStr(v: "a") }', {}),
+    ('{ echoStr(v: "bcd") }', {}), ("{ echoList(v: [1, 2]) }", {}), ("{ echoList(v: [3]) }", {}), ("{ echoList(v: 4) }", {}),
+    ("{ a: echoInt(v: 5) b: echoBool(v: true) }", {}), ('{ a: echoInt(v: 6) b: echoBool(v: false) c: echoStr(v: "z") }', {}),
+    ("{ echoBool }", {}), ("{ echoInt }", {}),
     ("{ pets { ... on Cat { name meow } } }", {}), ("{ pets { ... on Dog { name woof } } }", {}),
     ("{ pets { ...F } } fragment F on Cat { meow }", {}), ("{ pets { ...F } } fragment F on Dog { woof }", {}),
     ("{ pets { ... on Pet { __typename } } }", {}), ("{ ... on Query { ping } }", {}),
